@@ -80,8 +80,73 @@ def dual_pairing(ctx):
         raise AnalysisError("C12.R6: fewer than 2 material laws found")
 
 
+STRAINS = {"B_Gamma", "B_Kappa", "B_Gamma0", "B_Kappa0"}
+
+
+def clapeyron_rule(ctx):
+    """W = 1/2 (n . dGamma + m . dKappa) ("half the work of the forces", Clapeyron) is the potential of n, m only for a LINEAR law.  An energy
+    that is computed from the law's own forces is therefore admissible only if those forces are linear in the strains: no norm / sqrt / power /
+    division of a strain-dependent quantity in B_n, B_m.  (For Harsch2021's E0 (1 - l0/l) Gamma the Clapeyron value differs from
+    1/2 E0 (l - l0)^2 as soon as Gamma is stretched AND sheared; pure stretch hides it.)"""
+    from .. import protocol
+    rep = ctx.rep
+    n = 0
+    for ci in ctx.model.all_classes():
+        if ci.rel != MM:
+            continue
+        view = protocol.ClassView(ctx, ci)
+        cP, fP = view.method("potential")
+        cN, fN = view.method("B_n")
+        cM, fM = view.method("B_m")
+        if fP is None or fN is None or fM is None:
+            continue
+        if all(isinstance(b, ast.Raise) or (isinstance(b, ast.Expr) and isinstance(b.value, ast.Constant)) for b in fN.body):
+            continue        # abstract law
+        n += 1
+        C = f"{MM}:{ci.qual}"
+        via_forces = [w for w in ast.walk(fP) if isinstance(w, ast.Call) and norm_src(w.func) in ("self.B_n", "self.B_m")]
+        if not via_forces:
+            rep.ok("C12.R7", C, f"potential (defined in {cP.qual}) is written out on its own, not through the forces")
+            continue
+
+        def nonlinear(fn):
+            loc = {}
+            for x in ast.walk(fn):
+                if isinstance(x, ast.Assign) and len(x.targets) == 1 and isinstance(x.targets[0], ast.Name):
+                    loc[x.targets[0].id] = x.value
+            def dep(e, seen=frozenset()):
+                for w in ast.walk(e):
+                    if isinstance(w, ast.Name):
+                        if w.id in STRAINS:
+                            return True
+                        if w.id in loc and w.id not in seen and dep(loc[w.id], seen | {w.id}):
+                            return True
+                return False
+            for w in ast.walk(fn):
+                if isinstance(w, ast.Call) and (dotted(w.func) or "").split(".")[-1] in ("norm", "sqrt", "exp", "log", "sin", "cos") and any(dep(a) for a in w.args):
+                    return w
+                if isinstance(w, ast.BinOp) and isinstance(w.op, ast.Pow) and dep(w.left):
+                    return w
+                if isinstance(w, ast.BinOp) and isinstance(w.op, ast.Div) and dep(w.right):
+                    return w
+                if isinstance(w, ast.BinOp) and isinstance(w.op, (ast.Mult, ast.MatMult)) and dep(w.left) and dep(w.right):
+                    return w
+            return None
+        bad = nonlinear(fN) or nonlinear(fM)
+        if bad is None:
+            rep.ok("C12.R7", C, "potential is half the work of the forces and the forces are linear in the strains (Clapeyron applies)")
+        else:
+            rep.bad("C12.R7", C, via_forces[0], f"`{ci.qual}` takes its energy as half the work of its forces (`{norm_src(via_forces[0])[:40]}` in {cP.qual}.potential), but its force law is not "
+                    f"linear in the strains (`{norm_src(bad)[:50]}`): Clapeyron's formula is not the potential of a nonlinear law, so B_n is not the gradient of the reported energy "
+                    "(differs as soon as the strain is stretched and sheared)", f"{MM}:{via_forces[0].lineno}")
+    if n < 2:
+        raise AnalysisError("C12.R7: fewer than 2 concrete material laws found")
+
+
 def run(ctx):
     rep = ctx.rep
+    rep.rule("C12.R7", "an energy computed from the law's own forces (Clapeyron) is admitted only for force laws that are linear in the strains", 2)
+    clapeyron_rule(ctx)
     rep.rule("C12.R1", "homogeneity under joint strain scaling", 14)
     rep.rule("C12.R2", "homogeneity under stiffness scaling", 14)
     rep.rule("C12.R3", "tangent coverage of strain arguments", 8)
@@ -231,4 +296,14 @@ MUTANTS += [
 NEUTRAL = [
     dict(id="c12-n1", canary=True, what="Simo1986.potential written with explicit transposes", file=MM,
          old="        return 0.5 * dG @ self.C_n @ dG + 0.5 * dK @ self.C_m @ dK", new="        e_n = 0.5 * dG.T @ (self.C_n @ dG)\n        e_m = 0.5 * dK.T @ (self.C_m @ dK)\n        return e_n + e_m"),
+]
+MUTANTS += [
+    dict(id="c12-r7-seed", canary=True, what="[seeded by sub-agent] Harsch2021.potential replaced by half the work of its (nonlinear) forces", file=MM,
+         old="        return (\n            0.5 * dG @ self.C_n @ dG\n            + 0.5 * self.Ei[0] * (lambda_ - lambda0_) ** 2\n            + 0.5 * dK @ self.C_m @ dK\n        )\n",
+         new="        B_n = self.B_n(B_Gamma, B_Gamma0, B_Kappa, B_Kappa0)\n        B_m = self.B_m(B_Gamma, B_Gamma0, B_Kappa, B_Kappa0)\n        return 0.5 * (B_n @ dG + B_m @ dK)\n", expect="C12.R7"),
+]
+NEUTRAL += [
+    dict(id="c12-n-r7", canary=True, what="Simo1986.potential written as half the work of its linear forces", file=MM,
+         old="        return 0.5 * dG @ self.C_n @ dG + 0.5 * dK @ self.C_m @ dK\n",
+         new="        return 0.5 * (self.B_n(B_Gamma, B_Gamma0, B_Kappa, B_Kappa0) @ dG + self.B_m(B_Gamma, B_Gamma0, B_Kappa, B_Kappa0) @ dK)\n"),
 ]
